@@ -99,6 +99,7 @@ def check_point(rec, case, one, r, o_lat, o_lon, o_az2, a, invf, co):
 
 def ev(case, rec):
     ell = case['ell']
+    EOBJ = cfg.ell_obj(ell)
     a, invf = ELL_AF[ell]
     lat, lon, kind = case['lat'], case['lon'], case['kind']
     AZ, DS = np.meshgrid(np.array(case['az'], float), np.array(case['dist'], float), indexing='ij')
@@ -109,7 +110,7 @@ def ev(case, rec):
             one = dict(case, az=[az], dist=[s])
             co = {'ell': ell, 'lat': lat, 'lon': lon, 'az': az, 'dist': s}
             if kind == 'float':
-                st, r = rec.call(vincdir, lat, lon, az, s, ELLS[ell])
+                st, r = rec.call(vincdir, lat, lon, az, s, EOBJ)
                 if st != 'ok':
                     rec.fail('vincdir raised', site='geodesy:vincdir', observed=r, case=one, coords=co)
                     continue
